@@ -63,6 +63,11 @@ CLAIMED = {
   "note": "Tool runs as uid 65534 in a scratch directory with the sanitizer build in modes l v lv vv t p xn x xq2f e; 'never aborts' for causes outside the model (stack exhaustion in match_glob, exit(-1) on malloc failure in src/) is tested, not proved.",
   "technique": "Coq proof (no reachable Fault; loop measures); three-stream differential run + sanitizer oracle on library driver and tool",
  },
+ "C15": {
+  "text": "Partial. Theorems end_is_absorbing_next / end_is_absorbing_ops (once next_file has reported the end every later next_file reports it and read/check/extract fail, leaving reader and filesystem untouched), no_decode_outside_members (reads and checks on re-presented entries or before the first entry fail and change nothing). Closed under the global context. Independence of the header sequence and member bytes from the history, and the re-presentation order, are decided on every run by (1) the correspondence reader model = C on every protocol-respecting op sequence up to a depth bound and random ones, and (2) a metamorphic oracle on the C alone (same headers / same full-read result / same check verdict per member across runs that treat the other members differently and across stream kinds); two readers: interleaved and on two threads under ThreadSanitizer = the separate runs. The stream/basic-reader independence theorems are in progress (P_ReaderIndep.v).",
+  "note": "ThreadSanitizer reports inside glibc's tzset_internal (called from mktime under a libc-internal lock TSan cannot see) are suppressed by harness/c/tsan.supp; nothing in lib/ is suppressed.",
+  "technique": "Coq proof (absorbing end state) + differential run reader model vs C + metamorphic and two-reader/TSan oracles on the C",
+ },
  "C16": {
   "text": "Theorems sfx_prefix_skipped (any prefix < 262152 bytes with no match/marker position before |P| in P++A leaves the stream exactly at A), sfx_one_decoy (marker + exactly one decoy), scan_independent_of_kind (the four stream kinds scan and read identically), sfx_prefix_skipped_any_chunking (any short-read pattern, headers below 256 KiB), sfx_literal_reading_refuted (the literal reading 'P contains no signature' is insufficient: known finding, witness zz-lh + archive with '-' as second byte). Closed under the global context. Equality of member data/verdicts across kinds beyond the scan rests on the correspondence and the tool oracle.",
   "note": "KNOWN_FINDINGS.txt lists the straddle finding (signature = a match position p < |P| with p + 7 > |P|); any other prefix failure is a violation.",
